@@ -318,7 +318,7 @@ template<class A>
 double rel(const A& got, const std::vector<cld>& ref, ld nref, int n) {
     ld s = 0;
     for (int i = 0; i < n; ++i) s += std::norm(to_cld_one(got[i]) - ref[(size_t)i]);
-    if (!(s == s) || std::isinf((double)s)) return INFINITY;
+    if (!(s == s) || std::isinf(s)) return INFINITY;   // long double: (1e300*eps)^2 is far inside its range
     if (nref == 0) return s == 0 ? 0.0 : INFINITY;
     return (double)(sqrtl(s) / (nref * (ld)n * (ld)EPS));
 }
